@@ -101,6 +101,7 @@ class Shape:
         self.minarity: Dict[Path, int] = {}
         self.eqs: List[Tuple[ast.expr, ast.expr]] = []
         self.other_len_facts: List[str] = []
+        self.unread: List[str] = []  # conditions on the matched node that the model does not interpret
         for r, h in roots.items():
             if h:
                 self.heads[(r,)] = h
@@ -146,8 +147,13 @@ class Shape:
                 return
             if isinstance(op, ast.Eq) and pol:
                 self.eqs.append((l, r))
+                return
             elif isinstance(op, ast.NotEq) and not pol:
                 self.eqs.append((l, r))
+                return
+        if pol and any(isinstance(x, ast.Name) and x.id in names for x in ast.walk(e)) and any(isinstance(x, ast.Call) and not (isinstance(x.func, ast.Name) and x.func.id in ("isinstance", "len")) for x in ast.walk(e)):
+            # `if looks_like_pair(expr.args):` - a predicate over the matched node that is not read here
+            self.unread.append(norm(e))
 
     def _len_path(self, n) -> Optional[Path]:
         if (
@@ -366,6 +372,8 @@ def check_rewrite_equiv(
                     raise AnchorError(fi.short, f"{role}: {u}")
                 checked += 1
                 rows_total += rows
+                if not eq and shape.unread:
+                    raise AnchorError(fi.short, f"{role}: applied under {shape.unread}, a condition on the matched node that the term model does not read")
                 if not eq:
                     ar_s = ", ".join(f"len({path_str(p)}.args)={n}" for p, n in ar.items())
                     ctx.fail(
